@@ -169,6 +169,9 @@ def origins_through_try(body, o, depth=6):
                         if isinstance(st3, dict) and st3.get('k') == 'assign' and st3['rv']['k'] == 'agg' and st3['rv'].get('var') in ('Ok', 'Some') and len(st3['rv'].get('ops', [])) == 1:
                             out += origins_through_try(body, st3['rv']['ops'][0], depth - 1)
                             pierced = True
+                        elif isinstance(st3, dict) and st3.get('k') == 'call':
+                            out.append(o3)        # `callee(..)?`: the value is the Ok payload of that call
+                            pierced = True
                 elif isinstance(st, dict) and st.get('k') == 'assign' and st['rv']['k'] == 'agg' and st['rv'].get('var') in ('Ok', 'Some', 'Continue') and len(st['rv'].get('ops', [])) == 1:
                     out += origins_through_try(body, st['rv']['ops'][0], depth - 1)
                     pierced = True
@@ -176,6 +179,28 @@ def origins_through_try(body, o, depth=6):
                 out.append(og)
         else:
             out.append(og)
+    return out
+
+
+def receiver_chain_locals(body, o, depth=24):
+    """every local on the chain that leads back from operand o through copies, borrows and the RECEIVER (first argument) of calls:
+    `guard.files.iter().any(..)` -> {.., the iterator, the slice reference, the deref result, the guard}"""
+    out, work = set(), [o]
+    while work and depth > 0:
+        depth -= 1
+        x = work.pop()
+        if not is_local_op(x) or x['l'] in out:
+            continue
+        out.add(x['l'])
+        for q, st in defs_of(body, x['l']):
+            if st['k'] == 'assign':
+                rv = st['rv']
+                if rv['k'] in ('use', 'cast'):
+                    work.append(rv['o'])
+                elif rv['k'] in ('ref', 'rawptr'):
+                    work.append({'l': rv['pl']['l'], 'p': []})
+            elif st['k'] == 'call' and st['args']:
+                work.append(st['args'][0])
     return out
 
 
